@@ -186,6 +186,21 @@ def run(p: Program, rep: Report, tier: str) -> None:
                         body_src = ast.unparse(ast.Module(body=n.body, type_ignores=[]))
                         if f"{qname}.get(" in body_src or f"{qname}.get_nowait(" in body_src:
                             drain_until_done = True
+            # a wait for done() must not wait for a relay that is still QUEUED in the pool (all workers busy with other streams):
+            # cancel() has to be tried first and its result has to end the wait
+            hn = _handle_names(rs)
+            for t in fins:
+                for n in ast.walk(ast.Module(body=t.finalbody, type_ignores=[])):
+                    if isinstance(n, ast.While) and any(isinstance(c_, ast.Call) and isinstance(c_.func, ast.Attribute) and c_.func.attr == "done" and isinstance(c_.func.value, ast.Name) and c_.func.value.id in hn for c_ in ast.walk(n.test)):
+                        cancels_before = [c_ for c_ in calls_in(rs, deep=True) if isinstance(c_.func, ast.Attribute) and c_.func.attr == "cancel" and isinstance(c_.func.value, ast.Name) and c_.func.value.id in hn and c_.lineno <= n.lineno]
+                        cancel_vars = {tt.id for a_ in ast.walk(rs.node) if isinstance(a_, ast.Assign) and any(c_ is a_.value for c_ in cancels_before) for tt in a_.targets if isinstance(tt, ast.Name)}
+                        in_test = any(isinstance(x, ast.Name) and x.id in cancel_vars for x in ast.walk(n.test)) or any(c_ in list(ast.walk(n.test)) for c_ in cancels_before)
+                        if cancels_before and in_test:
+                            rep.ok("R6.3", "wsgi: the wait for the relay is skipped when cancel() removed a relay that had not started (pool saturated)")
+                        else:
+                            rep.violation("R6.3", construct(rs, text="wait for a relay that may never start"), where(rs, n),
+                                          "wsgi: the closing consumer waits until the relay future is done without first trying cancel(): a relay that is still queued behind other long-lived streams "
+                                          "(every pool thread busy) never becomes done, so close() spins forever")
             if not joins:
                 rep.ok("R6.3", "wsgi: the closing consumer does not wait for the relay thread without a timeout")
             elif not bounded or not blocking or drain_until_done:
@@ -218,7 +233,10 @@ def run(p: Program, rep: Report, tier: str) -> None:
         pfins = _finally_blocks(push)
         fin_puts = [c for c in blocking if any(_in(c, t.finalbody) for t in pfins)]
         if bounded and fin_puts:
-            settle = [c for c in calls_in(rs) if isinstance(c.func, ast.Attribute) and c.func.attr in ("cancel", "exception", "result") and any(_in(c, t.finalbody) for t in fins)]
+            # asyncio: cancel() interrupts the relay (its finally then needs room for the sentinel); a pool future: cancel() of a
+            # running relay does nothing and of a not-yet-started one removes it - only the joins wait for the thread
+            settle_kinds = ("cancel", "exception", "result") if side == "asgi" else ("exception", "result")
+            settle = [c for c in calls_in(rs) if isinstance(c.func, ast.Attribute) and c.func.attr in settle_kinds and any(_in(c, t.finalbody) for t in fins)]
             first_settle = min((c.lineno for c in settle), default=None)
             drains = []
             for t in fins:
@@ -264,7 +282,7 @@ def run(p: Program, rep: Report, tier: str) -> None:
                 rep.violation("R6.4", construct(rs, text="dequeue-to-yield"), where(rs, gets[0]), f"{side}: a dequeued event is not always yielded (or is yielded more than once) before the next dequeue")
         else:
             rep.violation("R6.4", construct(rs, text=f"{len(gets)} dequeue sites"), where(rs), f"{side}: events are dequeued at {len(gets)} places outside the final drain")
-    rep.require_instances("R6.3", 4)
+    rep.require_instances("R6.3", 5)
     rep.require_instances("R6.4", 6)
 
     # ---------------------------------------------------------------- R6.5 - R6.7 shared streaming rules
